@@ -1,4 +1,4 @@
-\* exhaustive plan enumeration with adversarial names
+\* exhaustive plan enumeration with adversarial names; source time one allocation window (3 s) ahead of the local clock
 SPECIFICATION Spec
 CHECK_DEADLOCK FALSE
 INVARIANTS PlanOut
@@ -13,6 +13,8 @@ CONSTANTS
   PStates = {"created", "dropped"}
   Concrete <- NamesClash
   Now = 100
+  Skews = {"window"}
+  ClampLocal = FALSE
   FixStaleDb = TRUE
   LiveDbGuard = TRUE
   SafeKeys = TRUE
